@@ -18,7 +18,7 @@ RULE = ("a scenario is one abstract input (phased multi-sample VCF over 1-2 chro
         "phase set exchanged in the VCF). 'gen' scenarios bundle TLC-enumerated call patterns x name-group shapes "
         "(Gen_C10: every pattern over 3 sites/2 sets for ploidy 2, 2 sites for ploidy 3, every single/pair shape with "
         "every observed allele vector); 'rand' scenarios are seeded larger worlds (indels, read groups, BX clouds, "
-        "--regions, stale tags, ploidy 2-4); 'hazard' scenarios are three small input classes inside the statement on "
+        "--regions, stale tags, ploidy 2-4); 'hazard' scenarios are five small input classes inside the statement on "
         "which the unchanged code is expected to fail. A scenario is non-trivial if the run succeeded and its output has "
         "a tagged alignment and an untagged alignment whose read observed a phased heterozygous variant (a tie)")
 ASSUMPTIONS = [
@@ -184,7 +184,7 @@ def _pick_swap(rng, sc):
     for ci, ch in enumerate(sc["chroms"]):
         for s in ch["sites"]:
             for si, c in enumerate(s["calls"]):
-                if c["ps"] > 0 or c.get("nops"):
+                if c["ps"] > 0:
                     cands.add((si + 1, ci + 1, c["ps"]))
     if cands and rng.random() < 0.9:
         sc["swap"] = list(rng.choice(sorted(cands)))
@@ -351,7 +351,7 @@ def _split_multiset_clouds(chroms, groups, ns):
 
 
 def _hazard_scenarios(rng):
-    """Three input classes inside the statement on which the code as of round 1 fails (see the report)."""
+    """Five input classes inside the statement on which the code as of round 1 fails (see the report)."""
     out = []
     site = lambda ps, al: {"kind": "snv", "len": 1, "calls": [{"ps": ps, "al": al}]}
     base = {"ploidy": 2, "mode": "noref", "samples": ["s1"], "rgs": [["g1", "s1"]],
@@ -390,6 +390,16 @@ def _hazard_scenarios(rng):
         o = dict(base["opts"], linked=True)
         out.append(dict(base, kind="hazard:bx_tie", mode="ref", seed=rng.randrange(1 << 30), groups=grs, opts=o, chroms=[ch],
                         swap=[1, 1, 100]))
+    # (5) one barcode in two samples: the read of the second sample shows nothing phased but lies near the first sample's cloud
+    for rep in range(2):
+        ch2 = {"sites": [{"kind": "snv", "len": 1, "calls": [{"ps": 100, "al": [0, 1]}, {"ps": 0, "al": [0, 1]}]} for _ in range(3)]}
+        grs = [{"rg": 1, "bx": 1, "bxraw": "SHARED-1", "alns": [{"chrom": 0, "kind": "prim", "lo": 1, "hi": 2, "al": [0, 0], "third": [],
+                                                             "rev": False, "stale": None}]},
+               {"rg": 2, "bx": 1, "bxraw": "SHARED-1", "alns": [{"chrom": 0, "kind": "prim", "lo": 3, "hi": 3, "al": [1], "third": [],
+                                                             "rev": False, "stale": None}]}]
+        o = dict(base["opts"], linked=True)
+        out.append(dict(base, kind="hazard:bx_two_samples", seed=rng.randrange(1 << 30), groups=grs, opts=o, chroms=[ch2],
+                        samples=["s1", "s2"], rgs=[["g1", "s1"], ["g2", "s2"]]))
     return out
 
 
@@ -435,7 +445,8 @@ def _layout(sc, rng):
                 vs.append(W.make_variant(rng, ref, p, s["kind"], s["len"]))
                 break
             else:
-                raise RuntimeError("no unshiftable deletion position")
+                # on a homopolymer-free reference a 1-bp deletion is always unshiftable
+                vs.append(W.make_variant(rng, ref, base, "del", 1))
         right0 = FIRST + SPACING * max(K, 1) + 25
         chroms.append({"name": f"c{ci + 1}", "len": length, "ref": ref, "vars": vs, "right": (right0, length - 8)})
     return chroms
@@ -580,7 +591,7 @@ def _materialise(sc, d):
             r["flag"] = flag
             tags = [("XI", xi)]
             if g["bx"]:
-                tags.append(("BX", f"BC{g['rg']}-{g['bx']}"))
+                tags.append(("BX", g.get("bxraw") or f"BC{g['rg']}-{g['bx']}"))
             if a["stale"]:
                 tags += [("HP", a["stale"][0]), ("PS", a["stale"][1]), ("PC", a["stale"][2])]
             r["tags"] = tags
@@ -790,6 +801,12 @@ def _hazards(W, nstale_unplaced):
                         clouds.setdefault((s, a["bx"]), {}).setdefault((W["sites"][o[0] - 1]["chrom"], c["ps"]), set()).add(a["name"])
         if any(len(sets) > 1 and len(set().union(*sets.values())) > 1 for sets in clouds.values()):
             hz.append("barcode-cloud-of-several-names-touching-two-phase-sets")
+        owner = {}
+        for a in W["aln"]:
+            if a["bx"]:
+                owner.setdefault(a["bx"], set()).add(smp(a))
+        if any(len(v) > 1 for v in owner.values()):
+            hz.append("barcode-shared-by-two-samples")
     return hz
 
 
